@@ -144,7 +144,7 @@ func (w *World) ctxOf(n *Node) sdk.Context {
 
 func newWorld(cfg *Config, orc Oracle, rng *Rng, res *RunResult) *World {
 	initSDK()
-	w := &World{cfg: cfg, oracle: orc, rng: rng, res: res, stash: map[int][]byte{}, stateSet: map[string]bool{}, maxViol: 8, X: map[string]interface{}{}}
+	w := &World{cfg: cfg, oracle: orc, rng: rng, res: res, stash: map[int][]byte{}, stateSet: map[string]bool{}, maxViol: 24, X: map[string]interface{}{}}
 	res.Faults = map[string]int{}
 	res.Probes = map[string]int{}
 	for i := 0; i < cfg.NAccts; i++ {
@@ -594,6 +594,9 @@ func (w *World) execBlock(b *Block) {
 		return
 	}
 	w.oracle.AfterBlock(w)
+	if b.Export {
+		w.exportImportCheck()
+	}
 }
 
 // runSchedule executes a schedule; with gen != nil blocks are generated online
